@@ -142,7 +142,24 @@ func (m *Model) RunErrLine(s *Sink, rule string) {
 				lc, isCall := c.Call.Args[1].(*ssa.Call)
 				if isCall && lc.Call.StaticCallee() == errorLine {
 					_, p, _ := pathOf(lc.Call.Args[0])
-					s.OK(rule, key, m.InstrPos(c), "line = ErrorLine() of %s", strings.TrimSuffix(strings.TrimPrefix(p, "."), "&"))
+					lineTok := strings.TrimSuffix(strings.TrimPrefix(p, "."), "&")
+					// the token the message talks about ("got X") is the offending one: the line must be that token's
+					named := map[string]bool{}
+					if len(c.Call.Args) > 3 {
+						for _, el := range variadicElems(c.Call.Args[3]) {
+							tokensNamedBy(el, 0, named)
+						}
+					}
+					if (lineTok == "curToken" || lineTok == "peekToken") && len(named) > 0 && !named[lineTok] {
+						var other []string
+						for k := range named {
+							other = append(other, k)
+						}
+						sort.Strings(other)
+						s.Violation(rule, key, m.InstrPos(c), "%s reports an error about p.%s (its type or text is put into the message) but takes the line from p.%s: when the two tokens are on different lines the error names the wrong line", fnKey(e.Caller.Func), strings.Join(other, "/"), lineTok)
+						continue
+					}
+					s.OK(rule, key, m.InstrPos(c), "line = ErrorLine() of %s", lineTok)
 				} else {
 					s.Violation(rule, key, m.InstrPos(c), "%s records a parser error whose line is %s instead of the ErrorLine() of the offending token", fnKey(e.Caller.Func), valueDesc(c.Call.Args[1]))
 				}
@@ -465,4 +482,36 @@ func ptrNamed(t types.Type) *types.Named {
 	}
 	nt, _ := t.(*types.Named)
 	return nt
+}
+
+// tokensNamedBy: which of the parser's tokens (curToken / peekToken) a message argument is computed from.
+func tokensNamedBy(v ssa.Value, d int, out map[string]bool) {
+	if d > 5 {
+		return
+	}
+	v = stripIface(v)
+	if _, p, ok := pathOf(v); ok {
+		for _, t := range []string{"curToken", "peekToken"} {
+			if strings.HasPrefix(p, "."+t+".") || p == "."+t {
+				out[t] = true
+			}
+		}
+	}
+	switch x := v.(type) {
+	case *ssa.Call:
+		for _, a := range x.Call.Args {
+			tokensNamedBy(a, d+1, out)
+		}
+	case *ssa.Convert:
+		tokensNamedBy(x.X, d+1, out)
+	case *ssa.ChangeType:
+		tokensNamedBy(x.X, d+1, out)
+	case *ssa.BinOp:
+		tokensNamedBy(x.X, d+1, out)
+		tokensNamedBy(x.Y, d+1, out)
+	case *ssa.Phi:
+		for _, e := range x.Edges {
+			tokensNamedBy(e, d+1, out)
+		}
+	}
 }
